@@ -10,6 +10,8 @@ import DimodProofs.C02Init
 import DimodProofs.C02ViewBridge
 import DimodProofs.C02PyHist
 import DimodProofs.C02PolyH
+import DimodProofs.C02FromHising
+import DimodProofs.C02SafeRelabels
 import Properties.C04
 
 /-! # C02 — changing between spin and binary representation never changes any energy
@@ -579,5 +581,64 @@ theorem poly_from_hising_offset_partial {R : Type} [CommRing R] (h : ODict Nat R
   simp [termProd]
 
 example : polyToHuboOf true [([0, 1], (1 : Rat))] = ([([1], -2), ([0], -2), ([0, 1], 4)], 1) := by decide +kernel
+
+
+/-! ## round 7: `from_hising` in full, the split of a relabelling into safe sub-mappings -/
+
+/-- **`from_hising(h, J, offset)`** (lifts `poly_from_hising_offset_partial`): for every dict `J` (distinct keys) none of whose keys is a
+    `(k,)` of `h` and — when an offset is given — none of whose keys is the empty term, the polynomial built is
+    `Σ h·s + Σ J·Πs + offset` at every `s`.  This is exactly the set of `J` the code handles: `poly.update(J)` and
+    `poly[frozenset([])] = offset` overwrite equal keys (witnesses below). -/
+theorem poly_from_hising_energy {R : Type} [CommRing R] (h : ODict Nat R) (J : Poly R) (o : Option R) (s : Nat → R)
+    (hJ : (J.map (·.1)).Nodup) (hlin : ∀ tb ∈ J, ∀ e ∈ h, tb.1 ≠ [e.1]) (hconst : o.isSome → ∀ tb ∈ J, tb.1 ≠ []) :
+    polySpec s (polyFromHising h J o) = hSum s h + polySpec s J + o.getD 0 :=
+  polyFromHising_energy h J o s hJ hlin hconst
+
+/-- the hypotheses are met by a non-trivial input: `h = {0: 1, 1: -2}`, `J = {(0,1): 3, (0,1,2): 1/2}`, offset `5` -/
+example : polySpec (fun v => if v = 1 then (-1 : Rat) else 1) (polyFromHising [(0, 1), (1, -2)] [([0, 1], 3), ([0, 1, 2], 1/2)] (some 5))
+    = 1 + 2 + (-3) + (-1/2) + 5 := by decide +kernel
+
+/-- without the guard on the empty term the statement fails: `J = {frozenset(): 1}` with offset `2` yields the constant `2`, not
+    `1 + 2` (replayed on the real code by the harness: site `BinaryPolynomial.from_hising`, class `frozenset() key in J`) -/
+example : polySpec (fun _ => (1 : Rat)) (polyFromHising [] [([], 1)] (some 2)) = 2 := by decide +kernel
+
+/-- without the guard on `(k,)` it fails as well: `h = {0: 1}`, `J = {(0,): 5}` yields `5·s₀`, not `6·s₀` -/
+example : polySpec (fun _ => (1 : Rat)) (polyFromHising [(0, 1)] [([0], 5)] none) = 5 := by decide +kernel
+
+
+/-- **`iter_safe_relabels(mapping, variables)` splits safely** (model as coded: C13's `VState.safeRelabels` — `new_labels` dict, the two
+    `ValueError` checks, `resolve_label_conflict` with its counter): for a mapping with distinct old labels that `relabelOk` accepts
+    (distinct new labels, a new label that exists is itself relabelled) it yields at most two sub-mappings, **each without key/value
+    overlap** (new labels distinct, no new label of a real pair is an old label of the same sub-mapping — so the pairs can be applied
+    one by one in place), **whose composition is the mapping** on every pair that renames; any other mapping is a `ValueError`. -/
+theorem iter_safe_relabels_split_is_safe (s : VState) (hI : s.Inv) (m : VState.Dict) (hk : (VState.keys m).Nodup) :
+    (LSpec.relabelOk m s.abs = true →
+      ∃ subs, s.safeRelabels m = some subs ∧ subs.length ≤ 2 ∧ (∀ sub ∈ subs, VState.SafeSub sub) ∧
+        (∀ x v, (x, v) ∈ m → x ≠ v → subs.foldl (fun y sub => VState.applySub sub y) x = v)) ∧
+    (LSpec.relabelOk m s.abs = false → s.safeRelabels m = none) :=
+  VState.safeRelabels_safe s hI m hk
+
+/-- **`pyBQM.relabel_variables(mapping)` as a whole** runs exactly those safe pairs: on a model with distinct variables the
+    `Variables` object handed to `iter_safe_relabels` satisfies its invariant and lists the model's labels, an accepted mapping is
+    executed as the fold of `relabelOne` (the step of the history theorems) over the safe sub-mappings, a rejected one raises before
+    anything is touched -/
+theorem pybqm_relabel_variables_runs_safe_split {R : Type} (d : LBqm R) (hnd : (d.adj.map (·.1)).Nodup)
+    (m : VState.Dict) (hk : (VState.keys m).Nodup) :
+    (LSpec.relabelOk m (d.adj.map (·.1)) = true →
+      ∃ subs : List VState.Dict, d.relabelVariables m = .ok (subs.foldl (fun d sub => sub.foldl (fun d p => d.relabelOne p.1 p.2) d) d) ∧
+        (∀ sub ∈ subs, VState.SafeSub sub) ∧
+        (∀ x v, (x, v) ∈ m → x ≠ v → subs.foldl (fun y sub => VState.applySub sub y) x = v)) ∧
+    (LSpec.relabelOk m (d.adj.map (·.1)) = false → d.relabelVariables m = .error .value) := by
+  obtain ⟨hI, habs⟩ := VState.variablesOf_spec (d.adj.map (·.1)) hnd
+  obtain ⟨h1, h2⟩ := VState.safeRelabels_safe (LBqm.variablesOf (d.adj.map (·.1))) hI m hk
+  rw [habs] at h1 h2
+  refine ⟨fun hok => ?_, fun hbad => ?_⟩
+  · obtain ⟨subs, hs, _, hsafe, hcomp⟩ := h1 hok
+    exact ⟨subs, by simp only [LBqm.relabelVariables, hs], hsafe, hcomp⟩
+  · simp only [LBqm.relabelVariables, h2 hbad]
+
+/-- a swap on `{0, 1, a}` is split into two phases through the fresh labels `4, 5` (the counter starts at `2·len(mapping)`) -/
+example : (LBqm.variablesOf [.int 0, .int 1, .str "a"]).safeRelabels [(.int 0, .int 1), (.int 1, .int 0)]
+    = some [[(.int 0, .int 4), (.int 1, .int 5)], [(.int 4, .int 1), (.int 5, .int 0)]] := by decide +kernel
 
 end C02
